@@ -18,6 +18,7 @@ import tempfile
 
 import cligen
 import clirun
+import c18_graphspec
 from lib import cmd, Sym
 
 META = dict(
@@ -32,7 +33,8 @@ META = dict(
          'Sub-commands taking graphs are judged by the monitor only (their generators are modelled by the family slices, not here).',
     design_ref='5/C18',
 )
-RULE = ('stream numeric: boundary sweep of integer/non-integer tokens for each modelled sub-command (outcome vs model); stream grammar: command '
+TRUSTED = c18_graphspec.TRUSTED
+RULE = ('stream graphspec: token lists for every graph construction/option/format (in-process parse_graph_argument and make_graph_from_spec vs the extracted GraphSpec model); stream numeric: boundary sweep of integer/non-integer tokens for each modelled sub-command (outcome vs model); stream grammar: command '
         'lines from harness/cligen.py, valid and with one perturbation; stream files: malformed/unreadable input files; stream tools: cnfshuffle, '
         'kthlist2pebbling. Non-trivial = the tool was actually started on a distinct argv; distinct = distinct (tool, argv, stdin)')
 
@@ -158,6 +160,7 @@ def wrong_prefix_kind(err, fmt):
 
 
 def run(ctx):
+    c18_graphspec.run_graphspec(ctx)      # graph arguments: parse_graph_argument / make_graph_from_spec vs coq/GraphSpec.v
     quick = ctx.tier == 'quick'
     rng = ctx.rng
     base = tempfile.mkdtemp(prefix='c18-')
